@@ -190,6 +190,14 @@ def run(ctx):
            + (ast.unparse(rc_)[:60] if rc_ is not None else "?") + " / " + (ast.unparse(sc_)[:60] if sc_ is not None else "?"), wr.lineno)
     ctx.ob("R3.masks", CIG, "write_alignment_to_cigar", "insertion & deletion -> ValueError",
            has_code(wr, "np.any(insertion_mask & deletion_mask)"), "a column of gaps only cannot be expressed", wr.lineno, nontrivial=False)
+    # the clip operations belong to the operation list itself: they are joined on unconditionally, in front of the decision between
+    # the string and the tuple form (both outputs describe the same alignment)
+    top = [k for k, st in enumerate(wr.body) if isinstance(st, ast.Assign) and has_code(st, "op_tuples = np.concatenate((start_clip, op_tuples, end_clip))")]
+    form = [k for k, st in enumerate(wr.body) if isinstance(st, ast.If) and any(isinstance(x, ast.Name) and x.id == "as_string" for x in ast.walk(st.test))]
+    ctx.ob("R3.clips-in-both-forms", CIG, "write_alignment_to_cigar", "op_tuples = concatenate((start_clip, op_tuples, end_clip)) before `if as_string`",
+           len(top) == 1 and bool(form) and top[0] < form[0],
+           "the clipped bases must be part of the operations whether they are returned as a CIGAR string or as (operation, length) tuples",
+           wr.lineno)
     ctx.ob("R3.clip-choice", CIG, "write_alignment_to_cigar", "clip_op = HARD_CLIP if hard_clip else SOFT_CLIP",
            has_code(wr, "clip_op = CigarOp.HARD_CLIP if hard_clip else CigarOp.SOFT_CLIP"), "the clip operation follows the hard_clip option", wr.lineno)
     ctx.ob("R3.match-refinement", CIG, "write_alignment_to_cigar", "EQUAL/DIFFERENT only on MATCH columns",
@@ -241,9 +249,12 @@ def run(ctx):
     ga = fcv.func("get_alignment")
     gat = ast.unparse(ga)
     # get_alignment: additional gap characters are mapped onto the gap character; it is removed before the sequences are built
-    repl = [c for c in ast.walk(ga) if isinstance(c, ast.Call) and isinstance(c.func, ast.Attribute) and c.func.attr == "replace" and len(c.args) == 2]
-    maps_to_gap = any(isinstance(c.args[0], ast.Name) and isinstance(c.args[1], ast.Constant) and c.args[1].value == "-" for c in repl)
-    strips_gap = any(isinstance(c.args[0], ast.Constant) and c.args[0].value == "-" and isinstance(c.args[1], ast.Constant) and c.args[1].value == "" for c in repl)
+    # (old, new) of every text replacement: `s.replace(old, new)` or the same call built with operator.methodcaller("replace", old, new)
+    repl = [tuple(c.args) for c in ast.walk(ga) if isinstance(c, ast.Call) and isinstance(c.func, ast.Attribute) and c.func.attr == "replace" and len(c.args) == 2]
+    repl += [tuple(c.args[1:]) for c in ast.walk(ga) if isinstance(c, ast.Call) and (call_name(c) or "").split(".")[-1] == "methodcaller"
+             and len(c.args) == 3 and isinstance(c.args[0], ast.Constant) and c.args[0].value == "replace"]
+    maps_to_gap = any(isinstance(a0, ast.Name) and isinstance(a1, ast.Constant) and a1.value == "-" for a0, a1 in repl)
+    strips_gap = any(isinstance(a0, ast.Constant) and a0.value == "-" and isinstance(a1, ast.Constant) and a1.value == "" for a0, a1 in repl)
     ctx.ob("R4.gap-character", ALN, "Alignment._gapped_str", f"written {gchar_w} / parsed {gchar_r}",
            gchar_w == gchar_r == ["-"] and maps_to_gap and strips_gap,
            "the gap character written into gapped strings must be the one the parsers treat as gap", gs.lineno)
@@ -373,6 +384,23 @@ def run(ctx):
     ctx.ob("R6.identity-all-rows", ALN, "get_pairwise_sequence_identity", "equal & both not gap",
            has_code(gp, "(codes[:, np.newaxis, :] == codes[np.newaxis, :, :]) & (codes[:, np.newaxis, :] != -1) & (codes[np.newaxis, :, :] != -1)"),
            "pairwise identity counts positions where both symbols are equal and neither is a gap", gp.lineno)
+
+    # ---------------- R6 subclasses of Alignment keep sequences and trace together ---------
+    # an indexed alignment is (sequences, trace, score) of ONE indexing operation: a subclass that re-wraps the result of
+    # Alignment.__getitem__ must take all three from it (rows selected by the index belong to the selected sequences)
+    BLA = "application/blast/alignment.py"
+    bl = ctx.src(BLA)
+    bgi = bl.func("BlastAlignment.__getitem__")
+    sup_names = [st.targets[0].id for st in stmts(bgi) if isinstance(st, ast.Assign) and isinstance(st.targets[0], ast.Name)
+                 and isinstance(st.value, ast.Call) and "super().__getitem__" in ast.unparse(st.value.func)]
+    ctor = [c for c in calls(bgi) if call_name(c) == "BlastAlignment"]
+    ctx.need(len(sup_names) == 1 and len(ctor) == 1, "BlastAlignment.__getitem__ re-wraps super().__getitem__(index)")
+    sn = sup_names[0]
+    got = [ast.unparse(a) for a in ctor[0].args[:3]]
+    ctx.ob("R6.subclass-index-keeps-rows-together", BLA, "BlastAlignment.__getitem__", f"BlastAlignment({', '.join(got)}, ...)",
+           got == [f"{sn}.sequences", f"{sn}.trace", f"{sn}.score"],
+           "sequences, trace and score of the indexed alignment must all come from the one indexing operation: with the unindexed "
+           "sequences a row-selecting index returns a trace whose columns belong to other sequences", bgi.lineno)
 
     # ---------------- R5 MSA reorder -------------------------------------------------------
     m = ctx.src(MULT)
